@@ -282,6 +282,9 @@ def movegen_ops(ctx, scale=1):
     ops += C.genops("fenpos", ctx.seed + 1, (400 if q else 20000) * scale)
     ops += C.genops("castle", ctx.seed + 2, 9 if q else 1)
     ops += C.genops("pairs", 0, 1)          # exhaustive special two-ply chains from every stem
+    # generated successors of check-giving castlings / line-uncovering en passant captures: the
+    # reply generation from a board that CARRIES that move descriptor (evasions only)
+    ops += C.genops("chkmoves", ctx.seed + 3, 1 if q else 1, "chk", "gen all", "gen cap")
     return ops
 
 
@@ -387,6 +390,9 @@ def check_C06(ctx, deep=False):
         stride = max(1, stride // 8)
     ops = C.genops("chk", ctx.seed, stride)
     ops += [o for o in C.genops("walk", ctx.seed + 1, 40 if q else 600, 60, 0) if o.split(" ")[0] in ("fen", "pick", "chk")]
+    # `is_check` on GENERATED successors (boards that carry a move descriptor) after special moves
+    # that give check: castling whose rook checks, en passant uncovering a line (exhaustive lattices)
+    ops += C.genops("chkmoves", ctx.seed + 2, 1, "chk")
     run_and_compare(ctx, ops, [oracle_chk])
     ctx.exhaustive = (stride == 1)
 
